@@ -77,7 +77,7 @@ impl Family for Fam {
     }
 
     fn parse_len(&self, code: i64, a: &[i128]) -> Option<usize> {
-        if code == 12 { Some(a.len()) } else { None }
+        if code == 12 || code == 17 { Some(a.len()) } else { None }
     }
 
     fn step(&mut self, code: i64, a: &[i128]) -> Ob {
@@ -213,6 +213,25 @@ impl Family for Fam {
                 } else {
                     vec![-1]
                 }
+            }
+            17 => {
+                let seed = a[0] as u64;
+                let bytes: Vec<u8> = a[2..].iter().map(|b| *b as u8).collect();
+                self.slot = None;
+                match CompactThetaSketch::deserialize_with_seed(&bytes, seed) {
+                    Ok(c) => {
+                        query_compact(&c);
+                        let ob = dump_compact(&c);
+                        self.slot = Some(c);
+                        ob
+                    }
+                    Err(_) => vec![ERR],
+                }
+            }
+            18 => {
+                let seed = a[0] as u64;
+                let r = std::panic::catch_unwind(|| ThetaSketch::builder().seed(seed).build());
+                vec![r.is_ok() as i128]
             }
             16 => {
                 let _ = self.sk.theta();
